@@ -19,11 +19,11 @@ Classes ==
     hlen     |-> {"h0", "h72", "h105", "h4096", "hhuge"},
     l1off    |-> {"unaligned", "beyond", "huge", "zero"},
     rtoff    |-> {"unaligned", "beyond", "huge", "zero"},
-    l1size   |-> {"zero", "huge", "wrap"},
+    l1size   |-> {"zero", "huge", "wrap", "short"},
     rtclus   |-> {"zero", "huge", "wrap", "wrap1", "top"},
     size     |-> {"zero", "huge", "odd"},
     backing  |-> {"offbeyond", "toolong", "overflow", "nonutf8"},
-    ext      |-> {"lenbeyond", "feat1", "feat49", "unknownodd", "noend", "lenhuge"},
+    ext      |-> {"lenbeyond", "lengap", "feat1", "feat49", "unknownodd", "noend", "lenhuge"},
     snap     |-> {"one"},
     l1e      |-> {"unaligned", "beyond", "header", "reserved", "self", "uncovered"},
     l2e      |-> {"unaligned", "beyond", "header", "l1table", "reserved", "compeof", "comphuge", "zeroalloc", "uncovered", "uncovtop"},
